@@ -3,6 +3,7 @@ import MosnVerif.Model.Shutdown
 import MosnVerif.Model.Transfer
 import MosnVerif.Model.H2GoAway
 import MosnVerif.Model.TransferLookup
+import MosnVerif.Drive.C11Upgrade
 /-! `mosnmodel` driver for C11: evaluates the models on one case line and the property predicate (`Spec…`, written
 against literal reference values, never against regenerated code) on the implementation's output. -/
 namespace MosnVerif.Drive.C11
@@ -518,6 +519,9 @@ def run (caseToks impl : List String) : String :=
   | "tf" :: ls :: c => tf ls c impl
   | "up" :: c => up c impl
   | "rs" :: c => rs c impl
+  | "st" :: c => C11U.st c impl
+  | "hw" :: c => C11U.hw c impl
+  | "rh" :: c => C11U.rh c impl
   | _ => "E E unknown-kind"
 
 end MosnVerif.Drive.C11
